@@ -139,7 +139,17 @@ func openStorage(dir string, opt Options) (*storage, error) {
 	// the log ends before the latest snapshot: we crashed in onInstallSnapRequest after
 	// storing the snapshot and before (or while) resetting the log. finish the reset now,
 	// the log must be contiguous with the snapshot
-	if s.log.LastIndex() < s.snaps.index {
+	stale := s.log.LastIndex() < s.snaps.index
+	if !stale && s.snaps.index > s.log.PrevIndex() {
+		// same crash window, but the old log reaches beyond the snapshot: if its entry at the
+		// snapshot index is not the entry the snapshot covers, the log is a stale branch
+		term, err := s.getEntryTerm(s.snaps.index)
+		if err != nil {
+			return nil, err
+		}
+		stale = term != s.snaps.term
+	}
+	if stale {
 		if err = s.log.Reset(s.snaps.index); err != nil {
 			return nil, opError(err, "Log.Reset(%d)", s.snaps.index)
 		}
